@@ -429,6 +429,13 @@ pub fn run(tier: Tier) -> i32 {
             ("late-equ", format!("{}\n.equ v_q = {}\n", with("v_q"), kt)),
             ("equ-over-variable-that-changed", format!(".set n_q = {}\n.equ v_q = n_q + 0\n{}\n.set n_q = {}\n{}\n", legal, with("v_q"), kt, with("v_q"))),
             ("variable-that-changed", format!(".set n_q = {}\n{}\n.set n_q = {}\n{}\n", legal, with("n_q"), kt, with("n_q"))),
+            ("variable-that-changed-inside-dseg", format!(".set n_q = {}\n{}\n.dseg\n.set n_q = {}\n.cseg\n{}\n", legal, with("n_q"), kt, with("n_q"))),
+            // the same value written as an expression: complement of its complement's value,
+            // negation of its negation, in parentheses, a sum
+            ("complement-spelling", format!("{}\n", with(&{ let m = (-(k as i128)) - 1; if m >= 0 { format!("~{}", m) } else { format!("~(-{})", -m) } }))),
+            ("complement-of-hex-spelling", format!("{}\n", with(&{ let m = (-(k as i128)) - 1; if m >= 0 { format!("~0x{:X}", m) } else { format!("~(0-0x{:X})", -m) } }))),
+            ("negation-spelling", format!("{}\n", with(&{ let m = -(k as i128); if m >= 0 { format!("-{}", m) } else { format!("-(-{})", -m) } }))),
+            ("parenthesised-sum-spelling", format!("{}\n", with(&format!("({} + 1 - 1)", if k < 0 { format!("(0{})", kt) } else { kt.clone() })))),
         ];
         for (how, src) in programs.iter() {
             let o = sut::build_str(src);
